@@ -14,16 +14,53 @@ Qed.
 Lemma pair_neq_zero (a b : Z) : (a, b) <> q_zero <-> a <> 0 \/ b <> 0.
 Proof.
   unfold q_zero. split.
-  - intros H. destruct (Z.eq_dec a 0) as [->|]; [|auto]. destruct (Z.eq_dec b 0) as [->|]; [|auto]. contradiction.
+  - intros H. destruct (Z.eq_dec a 0) as [-> | ]; [|auto]. destruct (Z.eq_dec b 0) as [-> | ]; [|auto]. contradiction.
   - intros H [= -> ->]. lia.
+Qed.
+
+(* ---------- arithmetic helpers (kept in clean contexts for nia / lia) ---------- *)
+Lemma sq_bound e n : - n <= 2 * e <= n -> 4 * (e * e) <= n * n.
+Proof. intros H. nia. Qed.
+Lemma half_bound N n s : 0 < n -> N * n = s -> 4 * s <= 2 * (n * n) -> 2 * N <= n.
+Proof. intros Hn E H. nia. Qed.
+Lemma tq_bound N n s : 0 < n -> N * n = s -> 4 * s <= 3 * (n * n) -> 4 * N <= 3 * n.
+Proof. intros Hn E H. nia. Qed.
+Lemma eis_bound al be n : - n <= 2 * al <= n -> - n <= 2 * be <= n ->
+  4 * (al * al - al * be + be * be) <= 3 * (n * n).
+Proof.
+  intros H1 H2.
+  assert (A : 0 <= (n - 2 * al) * (n + 2 * al)) by (apply Z.mul_nonneg_nonneg; lia).
+  assert (B : 0 <= (n - 2 * be) * (n + 2 * be)) by (apply Z.mul_nonneg_nonneg; lia).
+  assert (C1 : 0 <= (n - 2 * al) * (n - 2 * be)) by (apply Z.mul_nonneg_nonneg; lia).
+  assert (C2 : 0 <= (n + 2 * al) * (n + 2 * be)) by (apply Z.mul_nonneg_nonneg; lia).
+  lia.
+Qed.
+Lemma cube_halves N n : 0 <= N -> 0 < n -> 4 * N <= 3 * n -> 2 * N ^ 3 <= n ^ 3.
+Proof.
+  intros H0 Hn H.
+  assert (A : (4 * N) ^ 3 <= (3 * n) ^ 3) by (apply Z.pow_le_mono_l; lia).
+  replace ((4 * N) ^ 3) with (64 * N ^ 3) in A by ring.
+  replace ((3 * n) ^ 3) with (27 * n ^ 3) in A by ring.
+  assert (0 <= N ^ 3) by (apply Z.pow_nonneg; lia).
+  assert (0 < n ^ 3) by (apply Z.pow_pos_nonneg; lia).
+  lia.
+Qed.
+Lemma sum_sq_zero a b : a * a + b * b = 0 -> a = 0 /\ b = 0.
+Proof. intros H. split; nia. Qed.
+Lemma sum_sq_one a b : a * a + b * b = 1 ->
+  (a = 1 /\ b = 0) \/ (a = -1 /\ b = 0) \/ (a = 0 /\ b = 1) \/ (a = 0 /\ b = -1).
+Proof.
+  intros H. assert (Ha : -1 <= a <= 1) by nia. assert (Hb : -1 <= b <= 1) by nia.
+  assert (Ca : a = -1 \/ a = 0 \/ a = 1) by lia. assert (Cb : b = -1 \/ b = 0 \/ b = 1) by lia.
+  destruct Ca as [-> | [-> | ->]]; destruct Cb as [-> | [-> | ->]]; cbn in H; try discriminate; auto 10.
 Qed.
 
 (* ================================ Gaussian integers ================================ *)
 Lemma g_mul_eq u v : g_mul u v = (fst u * fst v - snd u * snd v, fst u * snd v + snd u * fst v).
 Proof.
   destruct u as [a b], v as [c d]. unfold g_mul. cbn [fst snd].
-  destruct (Z.eqb_spec b 0) as [->|_]; [f_equal; ring|].
-  destruct (Z.eqb_spec d 0) as [->|_]; f_equal; ring.
+  destruct (Z.eqb_spec b 0) as [-> | _]; [f_equal; ring|].
+  destruct (Z.eqb_spec d 0) as [-> | _]; f_equal; ring.
 Qed.
 
 Ltac qring_law mul_eq :=
@@ -45,7 +82,7 @@ Proof. rewrite g_mul_eq, !g_norm_eq. cbn [fst snd]. ring. Qed.
 Lemma g_norm_nonneg u : 0 <= g_norm u.
 Proof. rewrite g_norm_eq. nia. Qed.
 Lemma g_norm_zero u : g_norm u = 0 -> u = q_zero.
-Proof. destruct u as [a b]. rewrite g_norm_eq. cbn [fst snd]. intros H. unfold q_zero. f_equal; nia. Qed.
+Proof. destruct u as [a b]. rewrite g_norm_eq. cbn [fst snd]. intros H. destruct (sum_sq_zero a b H) as [-> ->]. reflexivity. Qed.
 Lemma g_norm_pos u : u <> q_zero -> 0 < g_norm u.
 Proof. intros H. pose proof (g_norm_nonneg u). destruct (Z.eq_dec (g_norm u) 0) as [E|]; [|lia]. apply g_norm_zero in E. contradiction. Qed.
 
@@ -70,15 +107,15 @@ Proof.
   rewrite g_mul_eq in Ew. destruct u as [a b], v as [c d]. unfold g_conj in Ew. cbn [fst snd] in Ew.
   injection Ew as Ex Ey.
   rewrite !g_mul_eq. unfold q_add, q_sub. cbn [fst snd]. split; [f_equal; ring|].
-  rewrite g_norm_eq in *. cbn [fst snd] in *.
+  rewrite g_norm_eq in Hn, H1, H2. rewrite !g_norm_eq. cbn [fst snd] in *.
   set (n := c * c + d * d) in *.
   set (r1 := a - (c * q1 - d * q2)). set (r2 := b - (c * q2 + d * q1)).
   (* (r1 + r2 i) * conj v = (x - n q1) + (y - n q2) i *)
   assert (E : (r1 * r1 + r2 * r2) * n = (x - q1 * n) * (x - q1 * n) + (y - q2 * n) * (y - q2 * n)).
   { unfold r1, r2, n. rewrite <- Ex, <- Ey. ring. }
-  assert (B1 : 4 * ((x - q1 * n) * (x - q1 * n)) <= n * n) by nia.
-  assert (B2 : 4 * ((y - q2 * n) * (y - q2 * n)) <= n * n) by nia.
-  nia.
+  pose proof (sq_bound (x - q1 * n) n H1) as B1.
+  pose proof (sq_bound (y - q2 * n) n H2) as B2.
+  apply (half_bound _ n _ Hn E). lia.
 Qed.
 
 Lemma g_div_zero u : g_div u q_zero = None /\ g_rem u q_zero = None.
@@ -90,9 +127,8 @@ Qed.
 Lemma g_unit_cases u : g_is_unit u = true <-> u = (1, 0) \/ u = (-1, 0) \/ u = (0, 1) \/ u = (0, -1).
 Proof.
   unfold g_is_unit. rewrite int_is_unit_spec, g_norm_eq. destruct u as [a b]. cbn [fst snd]. split.
-  - intros H. assert (Ha : -1 <= a <= 1) by nia. assert (Hb : -1 <= b <= 1) by nia.
-    assert (C : (a = 1 /\ b = 0) \/ (a = -1 /\ b = 0) \/ (a = 0 /\ b = 1) \/ (a = 0 /\ b = -1)) by nia.
-    destruct C as [[-> ->]|[[-> ->]|[[-> ->]|[-> ->]]]]; auto.
+  - intros H. assert (H' : a * a + b * b = 1) by (pose proof (Z.square_nonneg a); pose proof (Z.square_nonneg b); lia).
+    destruct (sum_sq_one a b H') as [[-> ->]|[[-> ->]|[[-> ->]|[-> ->]]]]; auto.
   - intros [E|[E|[E|E]]]; injection E as -> ->; left; reflexivity.
 Qed.
 
@@ -101,23 +137,47 @@ Ltac cmp_cases :=
   | |- context [?x <? ?y] => destruct (Z.ltb_spec x y)
   end; cbn [andb negb].
 
+Ltac pick_conj := repeat split; first [lia | reflexivity].
+Ltac choose_case := first [ solve [pick_conj] | solve [left; pick_conj] | right; choose_case ].
+
+(* the quadrant table of normalizing_unit *)
+Lemma g_nunit_cases a b :
+  (0 < a /\ 0 <= b /\ g_nunit (a, b) = (1, 0)) \/
+  (a <= 0 /\ 0 < b /\ g_nunit (a, b) = (0, -1)) \/
+  (a < 0 /\ b <= 0 /\ g_nunit (a, b) = (-1, 0)) \/
+  (0 <= a /\ b < 0 /\ g_nunit (a, b) = (0, 1)) \/
+  (a = 0 /\ b = 0 /\ g_nunit (a, b) = (1, 0)).
+Proof. unfold g_nunit. cmp_cases; unfold q_neg, q_omega, q_one; cbn [fst snd Z.opp]; choose_case. Qed.
+
+(* [g_nunit (x, y) = (1, 0)] for a product that lands in the first quadrant *)
+Ltac nunit_of x y cases :=
+  let a' := fresh "a'" in let b' := fresh "b'" in
+  set (a' := x) in *; set (b' := y) in *;
+  destruct (cases a' b') as [(?&?&?)|[(?&?&?)|[(?&?&?)|[(?&?&?)|(?&?&?)]]]]; subst a' b'.
+
 Lemma gauss_unit_laws : unit_laws gauss_ring (dict_units gauss_dict).
 Proof.
   constructor; cbn.
   - (* inv a = Some b -> a * b = 1 *)
     intros u w. unfold g_inv, int_inv. fold (g_is_unit u). destruct (g_is_unit u) eqn:E; [|discriminate].
-    intros [= <-]. apply g_unit_cases in E. destruct E as [->|[->|[->|->]]]; reflexivity.
+    intros [= <-]. apply g_unit_cases in E. destruct E as [-> | [-> | [-> | ->]]]; reflexivity.
   - intros u. unfold g_inv, int_inv. fold (g_is_unit u). destruct (g_is_unit u); split; intros H; eauto; try discriminate.
     destruct H as [b H]; discriminate.
   - intros u w H. unfold g_is_unit. apply int_is_unit_spec.
     assert (E : g_norm u * g_norm w = 1) by (rewrite <- g_norm_mul, H; reflexivity).
-    pose proof (g_norm_nonneg u). pose proof (g_norm_nonneg w). left. nia.
-  - intros [a b]. unfold g_nunit. cmp_cases; reflexivity.
-  - intros [a b]. rewrite g_mul_eq. unfold g_nunit at 2. cbn [fst snd].
-    cmp_cases; unfold q_neg, q_omega, q_one; cbn [fst snd]; unfold g_nunit; cmp_cases; try reflexivity; lia.
+    pose proof (g_norm_nonneg u). destruct (Z.mul_eq_1 _ _ E); lia.
+  - intros [a b]. unfold g_is_unit.
+    destruct (g_nunit_cases a b) as [(_&_&->)|[(_&_&->)|[(_&_&->)|[(_&_&->)|(_&_&->)]]]]; reflexivity.
+  - intros [a b]. rewrite g_mul_eq.
+    destruct (g_nunit_cases a b) as [(?&?&->)|[(?&?&->)|[(?&?&->)|[(?&?&->)|(?&?&->)]]]]; cbn [fst snd];
+    match goal with |- g_nunit (?x, ?y) = _ => nunit_of x y g_nunit_cases end;
+    first [assumption | exfalso; lia].
   - intros [a b] v Hv. apply g_unit_cases in Hv. rewrite !g_mul_eq.
-    destruct Hv as [->|[->|[->|->]]]; cbn [fst snd]; unfold g_nunit; cmp_cases;
-      unfold q_neg, q_omega, q_one; cbn [fst snd]; try (f_equal; lia).
+    destruct Hv as [-> | [-> | [-> | ->]]]; cbn [fst snd];
+    destruct (g_nunit_cases a b) as [(?&?&->)|[(?&?&->)|[(?&?&->)|[(?&?&->)|(?&?&->)]]]];
+    match goal with |- context [g_nunit (?x, ?y)] => nunit_of x y g_nunit_cases end;
+    try (exfalso; lia);
+    match goal with H : g_nunit _ = _ |- _ => rewrite H end; cbn [fst snd]; f_equal; lia.
 Qed.
 
 Theorem gauss_laws : euc_dict_laws gauss_dict g_norm.
@@ -131,4 +191,159 @@ Proof.
   - intros b c Hb Hc. cbn. rewrite g_norm_mul. pose proof (g_norm_pos c Hc). pose proof (g_norm_nonneg b). nia.
   - exact g_div_zero.
   - exact g_div_rem.
+Qed.
+
+(* ================================ Eisenstein integers ================================ *)
+Lemma e_mul_eq u v :
+  e_mul u v = (fst u * fst v - snd u * snd v, fst u * snd v + snd u * fst v + snd u * snd v).
+Proof.
+  destruct u as [a b], v as [c d]. unfold e_mul. cbn [fst snd].
+  destruct (Z.eqb_spec b 0) as [->|_]; [f_equal; ring|].
+  destruct (Z.eqb_spec d 0) as [->|_]; f_equal; ring.
+Qed.
+
+Lemma eisen_ring_laws : ring_laws eisen_ring.
+Proof.
+  constructor; unfold eisen_ring; cbn [radd rneg rmul rzero rone reqb];
+    try (qring_law e_mul_eq).
+  apply q_eqb_eq.
+Qed.
+
+Lemma e_norm_eq u : e_norm u = fst u * fst u + fst u * snd u + snd u * snd u.
+Proof. destruct u as [a b]. unfold e_norm. cbn [fst snd]. ring. Qed.
+Lemma e_norm_mul u v : e_norm (e_mul u v) = e_norm u * e_norm v.
+Proof. rewrite e_mul_eq, !e_norm_eq. cbn [fst snd]. ring. Qed.
+Lemma e_norm_4 u : 4 * e_norm u = (2 * fst u + snd u) * (2 * fst u + snd u) + 3 * (snd u * snd u).
+Proof. rewrite e_norm_eq. ring. Qed.
+Lemma e_norm_nonneg u : 0 <= e_norm u.
+Proof. pose proof (e_norm_4 u). pose proof (Z.square_nonneg (2 * fst u + snd u)). pose proof (Z.square_nonneg (snd u)). lia. Qed.
+Lemma e_norm_zero u : e_norm u = 0 -> u = q_zero.
+Proof.
+  intros H. pose proof (e_norm_4 u) as H4. rewrite H in H4. destruct u as [a b]. cbn [fst snd] in *.
+  pose proof (Z.square_nonneg (2 * a + b)). pose proof (Z.square_nonneg b).
+  assert (Hb : b * b = 0) by lia. assert (Ha : (2 * a + b) * (2 * a + b) = 0) by lia.
+  apply Z.mul_eq_0 in Hb. apply Z.mul_eq_0 in Ha. unfold q_zero. f_equal; lia.
+Qed.
+Lemma e_norm_pos u : u <> q_zero -> 0 < e_norm u.
+Proof. intros H. pose proof (e_norm_nonneg u). destruct (Z.eq_dec (e_norm u) 0) as [E|]; [|lia]. apply e_norm_zero in E. contradiction. Qed.
+
+Lemma eisen_integral : integral eisen_ring.
+Proof.
+  split; cbn; [discriminate|]. intros u v H.
+  assert (E : e_norm u * e_norm v = 0) by (rewrite <- e_norm_mul, H; reflexivity).
+  apply Z.mul_eq_0 in E. destruct E as [E|E]; [left|right]; now apply e_norm_zero.
+Qed.
+
+(* rounding division in the basis (1, ω - 1): N(u - v q) <= 3 N(v) / 4 *)
+Lemma e_div_rem u v : v <> q_zero ->
+  exists q r, e_div u v = Some q /\ e_rem u v = Some r /\
+              u = q_add (e_mul q v) r /\ 4 * e_norm r <= 3 * e_norm v.
+Proof.
+  intros Hv. pose proof (e_norm_pos v Hv) as Hn.
+  unfold e_rem, e_div, e_div_round.
+  destruct (e_mul u (e_conj v)) as [x y] eqn:Ew.
+  destruct (int_div_round_err (x + y) (e_norm v) Hn) as (m & -> & H1).
+  destruct (int_div_round_err y (e_norm v) Hn) as (k & -> & H2). cbn [obind].
+  do 2 eexists. split; [reflexivity|]. split; [reflexivity|].
+  rewrite e_mul_eq in Ew. destruct u as [a b], v as [c d]. unfold e_conj in Ew. cbn [fst snd] in Ew.
+  injection Ew as Ex Ey.
+  rewrite !e_mul_eq. unfold q_add, q_sub. cbn [fst snd]. split; [f_equal; ring|].
+  rewrite e_norm_eq in Hn, H1, H2. rewrite !e_norm_eq. cbn [fst snd] in *.
+  set (n := c * c + c * d + d * d) in *.
+  set (r1 := a - (c * (m - k) - d * k)). set (r2 := b - (c * k + d * (m - k) + d * k)).
+  set (al := x + y - m * n) in *. set (be := y - k * n) in *.
+  assert (E : (r1 * r1 + r1 * r2 + r2 * r2) * n = al * al - al * be + be * be).
+  { unfold r1, r2, al, be, n. rewrite <- Ex, <- Ey. ring. }
+  pose proof (eis_bound al be n H1 H2) as B.
+  apply (tq_bound _ n _ Hn E). exact B.
+Qed.
+
+Lemma e_div_zero u : e_div u q_zero = None /\ e_rem u q_zero = None.
+Proof.
+  unfold e_rem, e_div, e_div_round. destruct (e_mul u (e_conj q_zero)) as [x y]. split; reflexivity.
+Qed.
+
+(* units: the six sixth roots of unity *)
+Lemma eis_norm_one a b : a * a + a * b + b * b = 1 ->
+  (a = 1 /\ b = 0) \/ (a = 0 /\ b = 1) \/ (a = -1 /\ b = 1) \/
+  (a = -1 /\ b = 0) \/ (a = 0 /\ b = -1) \/ (a = 1 /\ b = -1).
+Proof.
+  intros H.
+  assert (H4 : (2 * a + b) * (2 * a + b) + 3 * (b * b) = 4) by lia.
+  pose proof (Z.square_nonneg (2 * a + b)).
+  assert (Hb : -1 <= b <= 1) by nia.
+  assert (Cb : b = -1 \/ b = 0 \/ b = 1) by lia.
+  destruct Cb as [-> | [-> | ->]].
+  - assert (Ha : -1 <= 2 * a - 1 <= 1) by nia. assert (Ca : a = 0 \/ a = 1) by lia. destruct Ca as [-> | ->]; auto 10.
+  - assert (Ha : -1 <= a <= 1) by nia. assert (Ca : a = -1 \/ a = 0 \/ a = 1) by lia.
+    destruct Ca as [-> | [-> | ->]]; cbn in H; try discriminate; auto 10.
+  - assert (Ha : -1 <= 2 * a + 1 <= 1) by nia. assert (Ca : a = 0 \/ a = -1) by lia. destruct Ca as [-> | ->]; auto 10.
+Qed.
+
+Lemma e_unit_cases u : e_is_unit u = true <->
+  u = (1, 0) \/ u = (0, 1) \/ u = (-1, 1) \/ u = (-1, 0) \/ u = (0, -1) \/ u = (1, -1).
+Proof.
+  unfold e_is_unit. rewrite int_is_unit_spec. split.
+  - intros H. pose proof (e_norm_nonneg u) as Hn. assert (H' : e_norm u = 1) by lia.
+    rewrite e_norm_eq in H'. destruct u as [a b]. cbn [fst snd] in H'.
+    destruct (eis_norm_one a b H') as [[-> ->]|[[-> ->]|[[-> ->]|[[-> ->]|[[-> ->]|[-> ->]]]]]]; auto 10.
+  - intros [E|[E|[E|[E|[E|E]]]]]; subst u; left; reflexivity.
+Qed.
+
+(* the sextant table of normalizing_unit *)
+Lemma e_nunit_cases a b :
+  (0 < a /\ 0 <= b /\ e_nunit (a, b) = (1, 0)) \/
+  (a <= 0 /\ 0 < a + b /\ e_nunit (a, b) = (1, -1)) \/
+  (a + b <= 0 /\ 0 < b /\ e_nunit (a, b) = (0, -1)) \/
+  (a < 0 /\ b <= 0 /\ e_nunit (a, b) = (-1, 0)) \/
+  (0 <= a /\ a + b < 0 /\ e_nunit (a, b) = (-1, 1)) \/
+  (0 <= a + b /\ b < 0 /\ e_nunit (a, b) = (0, 1)) \/
+  (a = 0 /\ b = 0 /\ e_nunit (a, b) = (1, 0)).
+Proof. unfold e_nunit. cbv zeta. cmp_cases; unfold q_neg, q_omega, q_one; cbn [fst snd Z.opp]; choose_case. Qed.
+
+Ltac e_nunit_of x y :=
+  let a' := fresh "a'" in let b' := fresh "b'" in
+  set (a' := x) in *; set (b' := y) in *;
+  destruct (e_nunit_cases a' b') as [(?&?&?)|[(?&?&?)|[(?&?&?)|[(?&?&?)|[(?&?&?)|[(?&?&?)|(?&?&?)]]]]]]; subst a' b'.
+
+Lemma eisen_unit_laws : unit_laws eisen_ring (dict_units eisen_dict).
+Proof.
+  constructor; cbn.
+  - intros u w. unfold e_inv, int_inv. fold (e_is_unit u). destruct (e_is_unit u) eqn:E; [|discriminate].
+    intros [= <-]. apply e_unit_cases in E. destruct E as [-> | [-> | [-> | [-> | [-> | ->]]]]]; reflexivity.
+  - intros u. unfold e_inv, int_inv. fold (e_is_unit u). destruct (e_is_unit u); split; intros H; eauto; try discriminate.
+    destruct H as [b H]; discriminate.
+  - intros u w H. unfold e_is_unit. apply int_is_unit_spec.
+    assert (E : e_norm u * e_norm w = 1) by (rewrite <- e_norm_mul, H; reflexivity).
+    pose proof (e_norm_nonneg u). destruct (Z.mul_eq_1 _ _ E); lia.
+  - intros [a b]. unfold e_is_unit.
+    destruct (e_nunit_cases a b) as [(_&_&->)|[(_&_&->)|[(_&_&->)|[(_&_&->)|[(_&_&->)|[(_&_&->)|(_&_&->)]]]]]]; reflexivity.
+  - intros [a b]. rewrite e_mul_eq.
+    destruct (e_nunit_cases a b) as [(?&?&->)|[(?&?&->)|[(?&?&->)|[(?&?&->)|[(?&?&->)|[(?&?&->)|(?&?&->)]]]]]]; cbn [fst snd];
+    match goal with |- e_nunit (?x, ?y) = _ => e_nunit_of x y end;
+    first [assumption | exfalso; lia].
+  - intros [a b] v Hv. apply e_unit_cases in Hv. rewrite !e_mul_eq.
+    destruct Hv as [-> | [-> | [-> | [-> | [-> | ->]]]]]; cbn [fst snd];
+    destruct (e_nunit_cases a b) as [(?&?&->)|[(?&?&->)|[(?&?&->)|[(?&?&->)|[(?&?&->)|[(?&?&->)|(?&?&->)]]]]]];
+    match goal with |- context [e_nunit (?x, ?y)] => e_nunit_of x y end;
+    try (exfalso; lia);
+    match goal with H : e_nunit _ = _ |- _ => rewrite H end; cbn [fst snd]; f_equal; lia.
+Qed.
+
+Definition e_phi (u : qint) : Z := e_norm u ^ 3.
+
+Theorem eisen_laws : euc_dict_laws eisen_dict e_phi.
+Proof.
+  constructor.
+  - exact eisen_ring_laws.
+  - exact eisen_integral.
+  - exact eisen_unit_laws.
+  - intros a. apply Z.pow_nonneg, e_norm_nonneg.
+  - intros a H. apply e_norm_zero. unfold e_phi in H. apply Z.pow_eq_0_iff in H. lia.
+  - intros b c Hb Hc. change (e_phi b <= e_phi (e_mul c b)). unfold e_phi. rewrite e_norm_mul. apply Z.pow_le_mono_l.
+    pose proof (e_norm_pos c Hc). pose proof (e_norm_nonneg b). nia.
+  - exact e_div_zero.
+  - intros a b Hb. destruct (e_div_rem a b Hb) as (q & r & H1 & H2 & H3 & H4).
+    exists q, r. repeat split; try assumption. unfold e_phi.
+    apply cube_halves; [apply e_norm_nonneg|now apply e_norm_pos|assumption].
 Qed.
